@@ -15,7 +15,7 @@ def run(ck, replay=None):
                       'the table.  Every history is rendered to one murex program (one function per call, blocks as if / switch / '
                       'foreach / ${} - quick: one program per block kind; thorough: two kinds plus one program with a random kind per block, deep plan: the latter only; the value written by operation j is "vj"), executed by the real '
                       'interpreter, and after every operation `$n` and `$GLOBAL.n` of every name are read and compared with the table.  '
-                      'non-trivial = at least one call or block and at least two writes; distinct = different (history, block kind).')
+                      'A third pass writes integers with typed forms (`set int n=`, `n = 105`, `-> set int n`) and reads in value context (`${ $n + 0 }`, the expression evaluator\'s look-up path).  non-trivial = at least one call or block and at least two writes; distinct = different (history, block kind).')
     ck.assumptions += ['a program that runs into its 20 s limit is run again on its own three times (120 s limit); only a hang that shows again is reported (a stall on a loaded machine is not a hang)']
     ck.assumptions += ['the program body is itself a function call (mxh run-programs forks F_FUNCTION like `source` and scripts do)',
                        'an undefined read must yield no value: the undefined-variable error (default strict-vars) or an empty string are both accepted',
@@ -37,6 +37,14 @@ def run(ck, replay=None):
             L.run_table(ck, cases, runner, tag=tag + '-const', kinds='mixed', limit=(3000 if quick else 20000))
         finally:
             L.VALFN[0] = lambda j: 'v%d' % j
+        # ... and with integer values, typed writes and reads in value context (expression evaluator)
+        L.VALFN[0] = lambda j: str(100 + j)
+        L.NUMERIC[0] = True
+        try:
+            L.run_table(ck, cases, runner, tag=tag + '-num', kinds='mixed', limit=(3000 if quick else 20000))
+        finally:
+            L.VALFN[0] = lambda j: 'v%d' % j
+            L.NUMERIC[0] = False
         ck.cov['exhaustive'] = exh
     if not ck.violations and n < (1000 if quick else 10000):
         raise common.Infra('vacuous: %d non-trivial histories' % n)
